@@ -57,7 +57,7 @@ PROPS = {
     ),
     "C16": dict(
         modules=["Whawty.Props.C16", "Whawty.Props.Gen"],
-        suites=[("hdrv", "c16"), ("overlay4", "v16cli")],
+        suites=[("hdrv", "c16"), ("overlay4", "v16cli"), ("overlay", "v11s")],
         level_text="check_exact characterises Dir.Check without reference to iteration order (proved from the fold over "
                    "readdir entries), check_perm_invariant gives order independence, init_only_on_empty and "
                    "init_produces_valid_store cover initialisation; step_preserves_valid / ops_preserve_valid: after EVERY "
@@ -73,7 +73,9 @@ PROPS = {
              "area after every operation; for stretches of a history the work area .tmp is a regular file (every write "
              "fails after it opened / reserved its target and must change nothing). CLI gate: the built binary, ten commands x "
              "check enabled by default / by flag, disabled by flag / by environment, on valid, duplicate-pair, no-admin, "
-             "stray-file and empty directories: exit status and directory digest vs the gate model.",
+             "stray-file and empty directories: exit status and directory digest vs the gate model. Agent level: the staged "
+             "schedules of C11 (internal upgrade racing set-admin / remove / add of the same user, a third of them with "
+             "2 MiB of auxiliary lines behind the records): the idle store passes the check, one file per user.",
         trusted=[T_CRYPTO, T_FS],
         partial=["that main.go's commands are wired to the gate as modelled (Model/Cli.lean; refuses_invalid_directory, "
                  "proceeds_only_if_valid_or_disabled) is decided by the run: the built binary on valid / invalid directories"],
@@ -305,7 +307,7 @@ PROPS = {
              "the timer, random gaps; hooks directories 0755/0700/0775/0777/0757/0752 x 16 entries (regular 0755..0000, "
              "single execute bits, hidden, setuid, symlinks to executable / non-executable / missing targets, hidden "
              "symlink, sub-directory); agent operations add/update/set-admin/remove succeeding and failing; three hanging "
-             "hooks (a sleeper, a shell ignoring TERM/HUP/INT/QUIT, a shell blocking them and waiting for a child) "
+             "hooks (the agent's own environment carries another WHAWTY_AUTH_STORE); hooks (a sleeper, a shell ignoring TERM/HUP/INT/QUIT, a shell blocking them and waiting for a child) "
              "started through a real agent: answered at once, alive after 10 s, gone after the one-minute limit.",
         trusted=["real time, process start latency (tolerance 150 ms), /bin/sh and date in the hook scripts"],
         partial=["the one-minute kill and 'never delays the agent' are run-time facts: observed on every run (the check "
@@ -327,7 +329,8 @@ PROPS = {
              "beyond the 1 s timeout, early close, reset, unreachable socket, no password available; NUL-free replies of "
              "252..4000 bytes (announced length = body, 256, 257, 258, 65535) under the option sets that log the reply; a "
              "signal interrupting the wait for the reply (before any byte / between header and body, then answer, "
-             "silence, close or reset); a fifth of all cases entered with a stale EINTR in the caller's errno.",
+             "silence, close or reset), signals every 150 ms for 6 s during silence (the call must still end: law on the "
+             "elapsed time, bound 5 s for a 1 s timeout); a fifth of all cases entered with a stale EINTR in the caller's errno.",
         trusted=["C compiler and libc; Linux-PAM replaced by stub headers (pam_get_user/pam_get_item/pam_prompt)",
                  "ASan/UBSan as the memory-error oracle"],
         partial=["memory safety and wall-clock bounds are run-time facts: observed with ASan/UBSan and the harness "
@@ -510,7 +513,16 @@ def run_pam_lines(pamdrv, plines, sw):
                 out.append("law.C20.returns_within_bounded_time %s => f" % cases[idx])
                 idx += 1
                 continue
+            # the elapsed time of the call (module timeout 1 s; the scripts never legitimately need more than
+            # two waits): strip it from the protocol line, judge it here
+            ms = None
+            if real and real[-1].startswith("ms="):
+                ms = int(real[-1][3:])
+                g = g.rsplit(" ms=", 1)[0]
+                real = real[:-1]
             out.append(g)
+            if ms is not None and ms > 5000:
+                out.append("law.C20.returns_within_bounded_time took=%dms %s => f" % (ms, cases[idx]))
             if "expect" in meta:
                 out.append("law.%s %s => %s" % (meta.get("law", "C05.pam_reads_verdict"), cases[idx],
                                                  "t" if real and real[0] == meta["expect"] else "f"))
